@@ -90,7 +90,7 @@ class PCABook(Machine):
                        "float_selects_all", "trim_to_1", "trim_after_trim", "noop_setter", "copy_diverged",
                        "out_of_range_int", "out_of_range_float", "all_kept_reconstruct_exact",
                        "object_backed", "uncentred", "max_n_components_at_build", "tiny_data_scale", "huge_data_scale", "integer_dtype_data", "mean_much_larger_than_spread",
-                       "earlier_results_still_valid", "fraction_equal_to_an_own_cumulative_ratio")
+                       "earlier_results_still_valid", "fraction_equal_to_an_own_cumulative_ratio", "integer_typed_instance_queried")
 
     @classmethod
     def swarm(cls, rng, tier):
@@ -358,6 +358,23 @@ class PCABook(Machine):
             e.m.reconstruct(self.w.obj(x))
         except Exception as ex:
             self.ctx.fail("identities", "query_raised", repr(ex))
+            return
+        if self.cfg["kind"] == "pointcloud" and self.scale > 0:
+            # the same shape typed with whole numbers (integer dtype) and with floats: the model's answers are vectors
+            # of reals either way
+            vals = np.round(x / self.scale * 50.0).reshape(-1, 2)
+            if float(np.abs(vals).max()) < 1e12:
+                try:
+                    fi, ff = PointCloud(vals.astype(np.int64)), PointCloud(vals.astype(float))
+                    for name in ("reconstruct", "project_out"):
+                        ri = np.asarray(getattr(e.m, name)(fi).as_vector(), dtype=float)
+                        rf = np.asarray(getattr(e.m, name)(ff).as_vector(), dtype=float)
+                        err = float(np.abs(ri - rf).max()) if ri.shape == rf.shape else float("inf")
+                        self.ctx.require(err <= 1e-9 * (1.0 + float(np.abs(rf).max())), "identities", "integer_typed_instance_answered_differently_" + name,
+                                         lambda: "%s of the same shape with integer and with float coordinates differ by %.3g" % (name, err))
+                    self.ctx.probe("integer_typed_instance_queried")
+                except Exception as ex:
+                    self.ctx.fail("identities", "query_raised", repr(ex))
 
     # ------------------------------------------------------------------
     def _check(self, e):
